@@ -2,7 +2,8 @@
    corr_ok: the model (Par/Partition.v, Par/Interleave.v, run on canonical schedules) predicts what
             the implementation did;
    prop_ok: the property itself on the implementation's observations (every index exactly once
-            with its own value; parallel = sequential), without calling the model's partition. *)
+            with its own value; parallel = sequential because both are judged against the same ideal
+            observation and output), without calling the model's partition. *)
 From PF Require Export Par.Partition Par.Interleave Check.Common.
 From Coq Require Import List Arith NArith ZArith Bool.
 Import ListNotations.
@@ -40,9 +41,15 @@ Close Scope N_scope.
 Record obs := { o_cnt : list N; o_val : list N; o_oob : list Z }.
 
 Inductive case :=
-| CScan (arity : nat) (salt : N) (n s : nat) (par seq_ : obs)
-| CPrims (topo : nat) (salt : N) (nidx nverts s : nat) (par seq_ : obs)
-| CMod (arity : nat) (salt : N) (n s : nat) (par : obs) (par_out seq_out : list N) (orig_kept : bool)
+(* the parallel entry points (pool size s) ... *)
+| CScan (arity : nat) (salt : N) (n s : nat) (par : obs)
+| CPrims (topo : nat) (salt : N) (nidx nverts s : nat) (par : obs)
+| CMod (arity : nat) (salt : N) (n s : nat) (par : obs) (par_out : list N) (orig_kept : bool)
+(* ... and their sequential counterparts on the same input (one case serves every pool size): parallel and
+   sequential are compared by judging both against the same ideal observation / output *)
+| CSeqScan (arity : nat) (salt : N) (n : nat) (seq_ : obs)
+| CSeqPrims (topo : nat) (salt : N) (nidx nverts : nat) (seq_ : obs)
+| CSeqMod (arity : nat) (salt : N) (n : nat) (seq_ : obs) (seq_out : list N) (orig_kept : bool)
 | CPanic (n : nat) (s : Z) (panicked : bool)          (* pool size < 1: declared panic *)
 (* marching: canvas-space boxes of the fields added (in order), number of Float1Functions of each
    field (all fields use the same attribute names), chunk tables read back from both canvases as
@@ -50,7 +57,15 @@ Inductive case :=
    canvas_eq: same (attribute, chunk) keys and bitwise equal cell arrays;
    march_eq: same panic status and same multiset of triangles (weld-cell keys) *)
 | CMarch (boxes : list (vec * vec)) (nfun : nat)
-         (seq_chunks par_chunks : list (nat * vec * Z)) (canvas_eq march_eq : bool).
+         (seq_chunks par_chunks : list (nat * vec * Z)) (canvas_eq march_eq : bool)
+(* large element counts (too long for per-index lists): run-length encoding (count, run length) of the
+   calls per index over [0,n), number of indices whose recorded value (scan: value seen; modify: value
+   seen and value returned) is not the expected one, number of calls outside [0,n), and whether the
+   sequential entry point produced the very same observation / output *)
+| CLarge (n s : N) (runs : list (N * N)) (bad_vals oob : N) (seq_same : bool)
+(* the same entry points executed by the binary built with -race: number of case executions and
+   number of data-race reports attributed to this case (summary case: to none in particular) *)
+| CRace (ran reports : N).
 
 (* ---- helpers ---- *)
 Fixpoint list_eqb {A} (eqb : A -> A -> bool) (a b : list A) : bool :=
@@ -96,20 +111,44 @@ Definition model_chunks (box : vec * vec) (nfun : nat) : list (nat * vec * Z) :=
 Definition key_in (k : nat * vec) (l : list (nat * vec)) : bool :=
   existsb (fun k' => (fst k =? fst k') && vec_eqb (snd k) (snd k')) l.
 
+(* the partition of Par/Partition.v on binary numbers, for counts that are too large for nat *)
+Definition rangesN (n s : N) : list (N * N) :=
+  let ws := (n / s)%N in
+  map (fun k => let i := N.of_nat k in let a := (ws * i)%N in
+                (a, (a + (if (i =? s - 1)%N then n - a else ws))%N))
+      (seq 0 (N.to_nat s)).
+(* the ranges follow each other from 0 to n: every index of [0,n) lies in exactly one of them *)
+Fixpoint chainN (cur : N) (rs : list (N * N)) (n : N) : bool :=
+  match rs with
+  | [] => (cur =? n)%N
+  | (a, b) :: t => (a =? cur)%N && (a <=? b)%N && chainN b t n
+  end.
+Definition ideal_runs (n : N) : list (N * N) := if (n =? 0)%N then [] else [(1%N, n)].
+Definition runs_eqb (a b : list (N * N)) : bool :=
+  list_eqb (fun x y => (fst x =? fst y)%N && (snd x =? snd y)%N) a b.
+
 (* ---- model vs implementation ---- *)
 Definition corr_ok (c : case) : bool :=
   match c with
-  | CScan a salt n s par _ =>
+  | CScan a salt n s par =>
       let xs := map (dat_code a salt) (seq 0 n) in
       forallb (fun e => obs_eqb (tally n e) par) (model_scan xs s)
-  | CPrims t salt nidx nverts s par _ =>
+  | CPrims t salt nidx nverts s par =>
       let n := prim_work (topo_of t) nidx in
       let xs := map (prim_code (topo_of t) salt nverts) (seq 0 n) in
       forallb (fun e => obs_eqb (tally n e) par) (model_scan xs s)
-  | CMod a salt n s par par_out _ _ =>
+  | CMod a salt n s par par_out _ =>
       let xs := map (dat_code a salt) (seq 0 n) in
       forallb (fun out => list_eqb N.eqb out par_out) (model_modify a xs s)
       && obs_eqb (tally n (model_modify_calls a xs s)) par
+  | CSeqScan a salt n sq =>
+      let xs := map (dat_code a salt) (seq 0 n) in obs_eqb (tally n (scan_seq xs)) sq
+  | CSeqPrims t salt nidx nverts sq =>
+      let n := prim_work (topo_of t) nidx in
+      let xs := map (prim_code (topo_of t) salt nverts) (seq 0 n) in obs_eqb (tally n (scan_seq xs)) sq
+  | CSeqMod a salt n sq seq_out _ =>
+      let xs := map (dat_code a salt) (seq 0 n) in
+      list_eqb N.eqb (modify_seq (gcode a) xs) seq_out && obs_eqb (tally n (scan_seq xs)) sq
   | CPanic n s panicked =>
       Bool.eqb panicked (match par_indices n (Z.to_nat s) with None => true | Some _ => (s <? 0)%Z end)
   | CMarch boxes nfun seqc parc _ _ =>
@@ -123,22 +162,26 @@ Definition corr_ok (c : case) : bool :=
          | [b] => list_eqb triple_eqb (model_chunks b nfun) seqc && list_eqb triple_eqb (model_chunks b nfun) parc
          | _ => true
          end
+  | CLarge n s runs bad oob _ =>
+      (* pool size 1 delegates to the sequential loop; otherwise the model's ranges chain *)
+      (if (s =? 1)%N then true else chainN 0%N (rangesN n s) n)
+      && runs_eqb runs (ideal_runs n) && (bad =? 0)%N && (oob =? 0)%N
+  | CRace _ reports => (reports =? 0)%N         (* no_model_race: the model predicts no report *)
   end.
 
 (* ---- the property on the implementation's output (direct oracle) ---- *)
 Definition prop_ok (c : case) : bool :=
   match c with
-  | CScan a salt n s par sq =>
-      let xs := map (dat_code a salt) (seq 0 n) in
-      obs_eqb par sq && obs_eqb par (ideal xs)
-  | CPrims t salt nidx nverts s par sq =>
+  | CScan a salt n _ o | CSeqScan a salt n o =>
+      obs_eqb o (ideal (map (dat_code a salt) (seq 0 n)))
+  | CPrims t salt nidx nverts _ o | CSeqPrims t salt nidx nverts o =>
       let n := Z.to_nat (prim_count (topo_of t) nidx) in
-      let xs := map (prim_code (topo_of t) salt nverts) (seq 0 n) in
-      obs_eqb par sq && obs_eqb par (ideal xs)
-  | CMod a salt n s par par_out seq_out kept =>
-      let xs := map (dat_code a salt) (seq 0 n) in
-      list_eqb N.eqb par_out seq_out && list_eqb N.eqb par_out (map (out_code a salt) (seq 0 n))
-      && obs_eqb par (ideal xs) && kept
+      obs_eqb o (ideal (map (prim_code (topo_of t) salt nverts) (seq 0 n)))
+  | CMod a salt n _ o out kept | CSeqMod a salt n o out kept =>
+      list_eqb N.eqb out (map (out_code a salt) (seq 0 n))
+      && obs_eqb o (ideal (map (dat_code a salt) (seq 0 n))) && kept
   | CPanic _ _ _ => true                      (* pool sizes below one are outside the property *)
   | CMarch _ _ seqc parc ceq meq => list_eqb triple_eqb seqc parc && ceq && meq
+  | CLarge n _ runs bad oob same => runs_eqb runs (ideal_runs n) && (bad =? 0)%N && (oob =? 0)%N && same
+  | CRace _ reports => (reports =? 0)%N
   end.
